@@ -1,5 +1,6 @@
 (* C08, QR algebra (mathcomp / ssreflect style).  Over any real field F with a square-root
-   oracle `sq` satisfying  0 <= x -> sq x * sq x = x :
+   oracle `sq` (any function; what is needed of it is part of `qr_regular`: on the squared length
+   s of every reflected vector u, s <> 0 and sq s * sq s = s):
    - every reflection matrix built by the transcribed qr loop (householder, padded into the
      identity) is  1 - 2 w w^T  with  w^T w = 1  (provided the reflected vector u is non-zero),
      hence symmetric and an involution;
@@ -50,7 +51,6 @@ End Telescoping.
 Section QR.
 Variable F : realFieldType.
 Variable sq : F -> F.
-Hypothesis sq_sq : forall x : F, 0 <= x -> sq x * sq x = x.
 
 (* the dictionary of F with the oracle as sqrt and F's order as the comparisons *)
 Definition rops : numops F :=
@@ -116,9 +116,11 @@ Definition wvec (rows c : nat) (x : list F) : 'cV[F]_rows :=
 
 Lemma wvec_unit rows c (x : list F) : (c + length x)%N = rows ->
   sumsq rops (householder_u rops x) != 0 ->
+  sq (sumsq rops (householder_u rops x)) * sq (sumsq rops (householder_u rops x)) =
+    sumsq rops (householder_u rops x) ->
   (wvec rows c x)^T *m wvec rows c x = 1%:M.
 Proof.
-  move=> Hrows Hs. apply/matrixP => i j. rewrite !ord1 !mxE eqxx mulr1n.
+  move=> Hrows Hs Hsq0. apply/matrixP => i j. rewrite !ord1 !mxE eqxx mulr1n.
   under eq_bigr => t _ do rewrite !mxE.
   rewrite -(big_mkord xpredT (fun t => (if (c <= t)%N then List.nth (t - c)%N (householder_v rops x) 0 else 0)
                                 * (if (c <= t)%N then List.nth (t - c)%N (householder_v rops x) 0 else 0))).
@@ -128,8 +130,8 @@ Proof.
   rewrite -{1}[c]add0n big_addn addKn.
   under eq_big_nat => t _ do rewrite leq_addl addnK.
   rewrite -(length_householder_v rops x) (sum_nth (fun e => e * e)).
-  rewrite /householder_v. set u := householder_u rops x. set s := sumsq rops u in Hs *.
-  have Hsq : sq s * sq s = s by apply: sq_sq; exact: sumsq_ge0.
+  rewrite /householder_v. set u := householder_u rops x in Hs Hsq0 *. set s := sumsq rops u in Hs Hsq0 *.
+  have Hsq : sq s * sq s = s by exact: Hsq0.
   have Hl : sq s != 0. { apply/eqP => E. move: Hsq. rewrite E mul0r => /esym /eqP. by rewrite (negbTE Hs). }
   rewrite /euclidean_length -/s /=.
   rewrite big_map. under eq_bigr => e _ do rewrite mulf_div.
@@ -156,5 +158,96 @@ Proof.
     by case: (Nat.eqb i j).
   - have -> : (i == j) = Nat.eqb i j by apply/eqP/Nat.eqb_spec => [->|H] //; apply: val_inj.
     by case: (Nat.eqb i j).
+Qed.
+
+(* every reflection of the loop is symmetric and an involution (u non-zero) *)
+Theorem householder_sym_invol rows c (x : list F) : (c + length x)%N = rows ->
+  sumsq rops (householder_u rops x) != 0 ->
+  sq (sumsq rops (householder_u rops x)) * sq (sumsq rops (householder_u rops x)) =
+    sumsq rops (householder_u rops x) ->
+  let H := mxo rows rows (pad_h rops (householder rops x) c rows) in
+  H^T = H /\ H *m H = 1%:M.
+Proof.
+  move=> Hrows Hs Hsq H. rewrite /H mxo_pad_householder //.
+  have Hw := wvec_unit Hrows Hs Hsq. split; [exact: hh_sym|exact: hh_invol].
+Qed.
+
+Lemma mxo_identity n : mxo n n (identity rops n) = 1%:M.
+Proof.
+  apply/matrixP => i j. rewrite !mxE mget_identity; [|exact/ltP|exact/ltP].
+  have -> : Nat.eqb i j = (i == j).
+  { apply/Nat.eqb_spec/eqP => [H|->] //. exact: val_inj. }
+  by case: (i == j).
+Qed.
+
+Definition Qmx (rows : nat) (q : option (list (list F))) : 'M[F]_rows :=
+  match q with None => 1%:M | Some q0 => mxo rows rows q0 end.
+
+(* the run is regular when no reflected vector u = x + a e is the zero vector and the oracle
+   returned a square root of its squared length *)
+Fixpoint qr_regular (rows : nat) (cs : list nat) (r : list (list F)) : Prop :=
+  match cs with
+  | [::] => True
+  | c :: cs' =>
+      let col := List.skipn c (column rops r c) in
+      sumsq rops (householder_u rops col) <> 0 /\
+      sq (sumsq rops (householder_u rops col)) * sq (sumsq rops (householder_u rops col)) =
+        sumsq rops (householder_u rops col) /\
+      qr_regular rows cs' (mmul rops (pad_h rops (householder rops col) c rows) r)
+  end.
+
+Lemma qr_loop_inv rows cols (A : 'M[F]_(rows, cols)) : (1 <= rows)%N -> forall cs q r,
+  (forall c, List.In c cs -> (c <= rows)%N) ->
+  wf2 rows cols r -> (forall q0, q = Some q0 -> wf2 rows rows q0) ->
+  qr_regular rows cs r ->
+  (Qmx rows q)^T *m Qmx rows q = 1%:M -> Qmx rows q *m mxo rows cols r = A ->
+  (Qmx rows (qr_loop rops rows cs q r).1)^T *m Qmx rows (qr_loop rops rows cs q r).1 = 1%:M /\
+  Qmx rows (qr_loop rops rows cs q r).1 *m mxo rows cols (qr_loop rops rows cs q r).2 = A.
+Proof.
+  move=> Hrows. elim=> [|c cs IH] q r Hcs Hr Hq Hreg Horth Hprod //=.
+  case: Hreg => Hs [Hsq Hreg].
+  set col := List.skipn c (column rops r c) in Hs Hsq Hreg *.
+  have Hc : (c <= rows)%N by apply: Hcs; left.
+  have Hlen : (c + length col)%N = rows.
+  { rewrite /col List.skipn_length length_column. case: Hr => -> _. lia. }
+  have Hs' : sumsq rops (householder_u rops col) != 0 by apply/eqP.
+  have [Hsym Hinv] := householder_sym_invol Hlen Hs' Hsq.
+  set h := pad_h rops (householder rops col) c rows in Hreg Hsym Hinv *.
+  have Hh : wf2 rows rows h by apply: wf2_pad_h.
+  have Hr' : mxo rows cols (mmul rops h r) = mxo rows rows h *m mxo rows cols r.
+  { exact: (mxo_mmul Hh Hr Hrows). }
+  apply: IH.
+  - move=> c' Hc'. apply: Hcs. by right.
+  - apply: (@wf2_mmul F rops rows rows cols) => //. lia.
+  - move=> q0. case: q Hq Horth Hprod => [hp|] Hq Horth Hprod [<-] //.
+    apply: (@wf2_mmul F rops rows rows rows) => //; [exact: Hq|lia].
+  - exact: Hreg.
+  - case: q Hq Horth Hprod => [hp|] Hq /= Horth Hprod.
+    + rewrite (mxo_mmul (Hq _ (erefl _)) Hh Hrows). apply: orth_step => //. by rewrite Hsym.
+    + by rewrite Hsym.
+  - case: q Hq Horth Hprod => [hp|] Hq /= Horth Hprod.
+    + rewrite (mxo_mmul (Hq _ (erefl _)) Hh Hrows) Hr'. exact: qr_step.
+    + rewrite Hr' mulmxA Hinv. exact: Hprod.
+Qed.
+
+(* Q^T Q = 1 and Q R = A for every regular run *)
+Theorem qr_sound rows cols (m q r : list (list F)) : wf2 rows cols m -> (1 <= rows)%N ->
+  qr rops m = Some (q, r) ->
+  qr_regular rows (List.seq 0 (Nat.min (rows - 1) cols)) m ->
+  (mxo rows rows q)^T *m mxo rows rows q = 1%:M /\
+  mxo rows rows q *m mxo rows cols r = mxo rows cols m.
+Proof.
+  move=> Hm Hrows Hqr Hreg.
+  have Hc : mcols m = cols by apply: wf2_mcols Hm _; apply/leP.
+  have Hl : mrows m = rows by case: Hm.
+  move: Hqr. rewrite /qr Hl Hc. case: (Nat.ltb rows cols) => // [[Hq Hrr]].
+  have := @qr_loop_inv rows cols (mxo rows cols m) Hrows
+            (List.seq 0 (Nat.min (rows - 1) cols)) None m _ Hm _ Hreg.
+  rewrite /= trmx1 mul1mx mul1mx. move=> Hinv.
+  have [] := Hinv _ _ (erefl _) (erefl _).
+  - move=> c /List.in_seq. lia.
+  - by [].
+  rewrite Hrr. move: Hq. case: (qr_loop rops rows _ None m).1 => [q1|] /= <- //.
+  by rewrite mxo_identity.
 Qed.
 End QR.
